@@ -12,6 +12,7 @@
   Assumed: a store call that returned is durable (badger SyncWrites), badger recovers what it synced.
 -/
 import Dirk.Lemmas.Crash
+import Dirk.Props.FactsStore
 import Dirk.Spec.Slashing
 
 namespace Dirk
